@@ -309,7 +309,16 @@ def run(ctx):
 
     # ---------------- R10.5 one budget per native call
     r5 = ctx.rule('R10.5', 'the search budget of a native call is obtained once, outside every loop of that native')
-    for b, bb, tm in mir.call_sites(lambda n: n.endswith('runtime::RuntimeLimits::search_iter')):
+    # budget sources: search_iter itself, and the small helpers of the crate that obtain a budget for their caller (core::search(iter, rt)
+    # zips an iterator with a fresh one): a function that calls search_iter and whose every caller is a native body
+    helpers = set()
+    for hb in mir.bodies:
+        if hb.kind == 'fn' and hb.file.startswith('src/builtin/') and not re.search(r'::add_\w+$', hb.nid) and any(strip_generics(t.get('callee') or t.get('decl') or '').endswith('runtime::RuntimeLimits::search_iter') for _, t in hb.calls()):
+            if len(hb.blocks) <= 12:
+                helpers.add(hb.nid)
+    for b, bb, tm in mir.call_sites(lambda n: n.endswith('runtime::RuntimeLimits::search_iter') or n in helpers):
+        if b.nid in helpers:
+            continue
         in_loop = tm.get('target') is not None and bb in b.reachable(tm['target'])
         # a closure called once per item of an outer iteration is a loop body as well
         per_item = False
